@@ -106,6 +106,9 @@ pub fn install_net() -> Net {
         };
         if class != Class::Other {
             n.log.push((dst, class, v));
+            if class == Class::Poll && std::env::var_os("VP_DEBUG_POLL").is_some() {
+                eprintln!("DEBUG poll to {dst} at paused-clock {:?}", tokio::time::Instant::now());
+            }
         }
         v
     })));
